@@ -65,11 +65,22 @@ def Wrap.pipe {σ} (ops : IOps σ) : Wrap σ → List Bytes → List Bytes → (
     | (w', .done) => Wrap.pipe ops w' cs (c :: out)
     | (w', o) => (out.reverse, w', o)
 
+/-- `[i for i in non_raw if i.format_match]`: the first format_match that raises propagates -/
+def matchList {σ} (ops : IOps σ) : List σ → Except Err (List σ)
+  | [] => .ok []
+  | i :: rest =>
+    match ops.fmatch i with
+    | .error e => .error e
+    | .ok b =>
+      match matchList ops rest with
+      | .error e => .error e
+      | .ok r => .ok (if b then i :: r else r)
+
 /-- `formats` (lines 1404-1436); the error is an exception out of a format_match -/
 def Wrap.formats {σ} (ops : IOps σ) (w : Wrap σ) : Except Err (Option (List σ)) := do
   let nonRaw := w.insps.filter (fun i => ops.name i != "raw")
   let complete := nonRaw.all ops.complete
-  let ms ← nonRaw.filterM (fun i => ops.fmatch i)
+  let ms ← matchList ops nonRaw
   if !complete && !w.finished then return none
   if ms.isEmpty then return some (w.insps.filter (fun i => ops.name i == "raw"))
   return some ms
